@@ -50,12 +50,14 @@ JOBS = {
     ),
 }
 
-PROCS_RULE = ("seed -> plan (process scripts over the listed operations, address-slot permutation, priorities, integer-grid times so that ties are the rule, "
+PROCS_RULE = ("two search modes. random: seed -> plan (process scripts over the listed operations, address-slot permutation, priorities, integer-grid times so that ties are the rule, "
               "attached faults: interrupt / stop / guard cancel / guard remove / event cancel / priority change / restart / resume / condition signal / queue cancel, "
               "each aimed at a victim's in-flight operation with an event priority just above or below the victim's) -> real library under the harness-owned dispatch loop with "
-              "monitors after every event and at every instant boundary; distinct = distinct trace hashes; non-trivial = at least one fault landed on a blocked operation")
+              "monitors after every event and at every instant boundary. single-fault sweep: a fault-free base plan is sampled by seed and run once to record every blocking call's window; then every "
+              "(call instance x instant in its window at which anything happened x applicable fault kind x event priority just above / just below the victim's) is run as its own plan. "
+              "distinct = distinct trace hashes; non-trivial = at least one fault landed on a blocked operation")
 
-def procs_jobs(only, mixes, nq, nt, san_mix=None, crowd_mix=None):
+def procs_jobs(only, mixes, nq, nt, san_mix=None, crowd_mix=None, sweep_mixes=None):
     jobs = []
     per = max(1, nq // max(1, len(mixes)))
     pert = max(1, nt // max(1, len(mixes)))
@@ -64,21 +66,25 @@ def procs_jobs(only, mixes, nq, nt, san_mix=None, crowd_mix=None):
     if crowd_mix:
         jobs.append(J("procs", "rel", max(400, nq // 40), nt // 40, cfg=crowd_mix, only=only))
     jobs.append(J("procs", "san", max(2000, nq // 12), nt // 12, cfg=san_mix or mixes[-1], only=only))
+    # single-fault sweep: for each sampled fault-free base program, every (blocking call x instant in its window x fault kind x priority side)
+    sw = sweep_mixes if sweep_mixes is not None else [m.split(",faults")[0] for m in mixes[:2]]
+    for m in dict.fromkeys(sw):
+        jobs.append(J("procs", "rel", 500, 20000, cfg=m, only=only, sweep=True))
     return jobs
 
 JOBS.update({
     "C04": dict(level="fault_enumeration", rule=PROCS_RULE,
-        jobs=procs_jobs("C04", ["mix=wait,faults=0", "mix=wait,faults=1", "mix=wait,faults=2", "mix=res,faults=2", "mix=all,faults=2"], 240000, 6000000, crowd_mix="mix=wait,faults=2,crowd=1"),
+        jobs=procs_jobs("C04", ["mix=wait,faults=0", "mix=wait,faults=1", "mix=wait,faults=2", "mix=res,faults=2", "mix=all,faults=2"], 900000, 24000000, crowd_mix="mix=wait,faults=2,crowd=1"),
         wall_quick=55, wall_thorough=1200,
         assumptions=["interrupts may be lost (the property does not promise delivery) but never duplicated, late or stale",
                      "a timer still armed when its process receives an interrupt or preemption notice may or may not fire afterwards (either is accepted)",
                      "a return with a non-success value must match exactly one undelivered cause with that unique value, due at exactly that instant"]),
     "C05": dict(level="fault_enumeration", rule=PROCS_RULE,
-        jobs=procs_jobs("C05", ["mix=res,faults=0", "mix=res,faults=1", "mix=res,faults=2", "mix=all,faults=2"], 240000, 6000000, crowd_mix="mix=res,faults=2,crowd=1"),
+        jobs=procs_jobs("C05", ["mix=res,faults=0", "mix=res,faults=1", "mix=res,faults=2", "mix=all,faults=2"], 900000, 24000000, crowd_mix="mix=res,faults=2,crowd=1"),
         wall_quick=55, wall_thorough=1200,
         assumptions=["the harness keeps its own belief of who holds each resource from the return values alone and compares it with the holder/in-use/available/held-by queries and the process's own list after every event"]),
     "C06": dict(level="fault_enumeration", rule=PROCS_RULE,
-        jobs=procs_jobs("C06", ["mix=res,faults=1", "mix=pool,faults=1", "mix=buf,faults=1", "mix=oq,faults=1", "mix=pq,faults=1", "mix=all,faults=2"], 240000, 6000000, crowd_mix="mix=all,faults=1,crowd=1")
+        jobs=procs_jobs("C06", ["mix=res,faults=1", "mix=pool,faults=1", "mix=buf,faults=1", "mix=oq,faults=1", "mix=pq,faults=1", "mix=all,faults=2"], 600000, 16000000, crowd_mix="mix=all,faults=1,crowd=1", sweep_mixes=["mix=res", "mix=pool", "mix=buf", "mix=oq", "mix=pq"])
              + [J("hheap", "rel", 40000, 800000, cfg="cmp=1", only="C02")],
         wall_quick=55, wall_thorough=1200,
         assumptions=["judges wake-ups, not completion of a multi-step get/put (a woken waiter that finds nothing re-queues with a new entry time by design)",
@@ -86,33 +92,33 @@ JOBS.update({
                      "conditions are excluded here (each waiter has its own predicate; see C13)",
                      "the waiting-list comparator is additionally certified as a heap order on stand-alone heaps (hheap engine, cmp=1)"]),
     "C07": dict(level="fault_enumeration", rule=PROCS_RULE,
-        jobs=procs_jobs("C07", ["mix=pool,faults=0", "mix=pool,faults=1", "mix=pool,faults=2", "mix=all,faults=2"], 240000, 6000000, crowd_mix="mix=pool,faults=2,crowd=1"),
+        jobs=procs_jobs("C07", ["mix=pool,faults=0", "mix=pool,faults=1", "mix=pool,faults=2", "mix=all,faults=2"], 900000, 24000000, crowd_mix="mix=pool,faults=2,crowd=1"),
         wall_quick=55, wall_thorough=1200,
         assumptions=["a process whose units vanish without it running, ending or being stopped is a preemption victim; the taker is the process that gained units in the same segment of the event",
                      "priorities are compared as they were at the latest of the start of the event and the preempting call"]),
     "C08": dict(level="fault_enumeration", rule=PROCS_RULE,
-        jobs=procs_jobs("C08", ["mix=res,faults=2", "mix=pool,faults=2", "mix=buf,faults=2", "mix=oq,faults=2", "mix=pq,faults=2", "mix=all,faults=2"], 240000, 6000000, crowd_mix="mix=all,faults=2,crowd=1"),
+        jobs=procs_jobs("C08", ["mix=res,faults=2", "mix=pool,faults=2", "mix=buf,faults=2", "mix=oq,faults=2", "mix=pq,faults=2", "mix=all,faults=2"], 600000, 16000000, crowd_mix="mix=all,faults=2,crowd=1", sweep_mixes=["mix=res", "mix=pool", "mix=buf", "mix=oq", "mix=pq"]),
         wall_quick=55, wall_thorough=1200,
         assumptions=["evaluated at every instant boundary (detected retrospectively) and at quiescence through the public queries only"]),
     "C09": dict(level="fault_enumeration", rule=PROCS_RULE,
-        jobs=procs_jobs("C09", ["mix=wait,faults=2", "mix=res,faults=2", "mix=pool,faults=2", "mix=all,faults=2"], 240000, 6000000, crowd_mix="mix=wait,faults=2,crowd=1"),
+        jobs=procs_jobs("C09", ["mix=wait,faults=2", "mix=res,faults=2", "mix=pool,faults=2", "mix=all,faults=2"], 900000, 24000000, crowd_mix="mix=wait,faults=2,crowd=1", sweep_mixes=["mix=wait", "mix=res", "mix=pool"]),
         wall_quick=55, wall_thorough=1200,
         assumptions=["a waiter that left its wait earlier in the same instant for another cause is not owed the end notification"]),
     "C11": dict(level="fault_enumeration", rule=PROCS_RULE,
-        jobs=procs_jobs("C11", ["mix=buf,faults=0", "mix=buf,faults=1", "mix=buf,faults=2", "mix=all,faults=2"], 240000, 6000000, crowd_mix="mix=buf,faults=2,crowd=1"),
+        jobs=procs_jobs("C11", ["mix=buf,faults=0", "mix=buf,faults=1", "mix=buf,faults=2", "mix=all,faults=2"], 300000, 8000000, crowd_mix="mix=buf,faults=2,crowd=1"),
         wall_quick=55, wall_thorough=1200,
         assumptions=["the amount argument is a harness-owned variable read while the call is still blocked, so the level equation is exact after every event"]),
     "C12": dict(level="fault_enumeration", rule=PROCS_RULE,
-        jobs=procs_jobs("C12", ["mix=oq,faults=1", "mix=oq,faults=2", "mix=pq,faults=1", "mix=pq,faults=2", "mix=all,faults=2"], 240000, 6000000, crowd_mix="mix=oq,faults=2,crowd=1"),
+        jobs=procs_jobs("C12", ["mix=oq,faults=1", "mix=oq,faults=2", "mix=pq,faults=1", "mix=pq,faults=2", "mix=all,faults=2"], 900000, 24000000, crowd_mix="mix=oq,faults=2,crowd=1", sweep_mixes=["mix=oq", "mix=pq"]),
         wall_quick=55, wall_thorough=1200,
         assumptions=["object queues: FIFO by put-completion order; priority queues: (priority desc, put order); model queues are capped at 64 entries (longer runs stop judging)"]),
     "C13": dict(level="fault_enumeration", rule=PROCS_RULE,
-        jobs=procs_jobs("C13", ["mix=cond,faults=0", "mix=cond,faults=1", "mix=cond,faults=2", "mix=all,faults=2"], 240000, 6000000, crowd_mix="mix=cond,faults=1,crowd=1"),
+        jobs=procs_jobs("C13", ["mix=cond,faults=0", "mix=cond,faults=1", "mix=cond,faults=2", "mix=all,faults=2"], 900000, 24000000, crowd_mix="mix=cond,faults=1,crowd=1"),
         wall_quick=55, wall_thorough=1200,
         assumptions=["a waiter whose predicate was true all the time since it began to wait is not owed a wake-up (nothing has signalled the condition since); one whose predicate became true through a signalled change is",
                      "predicates read harness variables (changed only in steps that signal) or the public state of objects whose waiting list the condition observes"]),
     "C14": dict(level="fault_enumeration", rule=PROCS_RULE,
-        jobs=procs_jobs("C14", ["mix=res,faults=2,rec=1", "mix=pool,faults=2,rec=1", "mix=buf,faults=2,rec=1", "mix=oq,faults=2,rec=1", "mix=pq,faults=2,rec=1"], 240000, 6000000),
+        jobs=procs_jobs("C14", ["mix=res,faults=2,rec=1", "mix=pool,faults=2,rec=1", "mix=buf,faults=2,rec=1", "mix=oq,faults=2,rec=1", "mix=pq,faults=2,rec=1"], 900000, 24000000, sweep_mixes=["mix=res,rec=1", "mix=pool,rec=1", "mix=pq,rec=1"]),
         wall_quick=55, wall_thorough=1200,
         assumptions=["one recording window per object per run; the true trajectory is sampled by the harness at every instant boundary (integer-grid times make the reference integral exact)"]),
 })
